@@ -163,12 +163,21 @@ def c09b(ck, prog):
         f = dem.get(nm)
         ok = False
         if f is not None:
+            f = prog.inlined(f, 1, r"core::slice::<impl \[T\]>::first$|Iterator>?::position$")     # the test may be a helper method
             for c in f.calls():
                 if c.name == visit:
                     for fa in guards.facts_at(f, prog, c.bb):
                         if fa.kind == "cmp" and fa.op == "Eq":
                             sides = [guards.describe_origin(f, fa.lhs), guards.describe_origin(f, fa.rhs)]
                             if "const 0" in sides and any("unwrap_or" in s or "position" in s or "len" in s for s in sides):
+                                ok = True
+                        # the same test as `input.first().map_or(true, |b| *b == b'&')`: nothing left, or at the `&`
+                        if fa.kind == "boolcall" and fa.truth and fa.call.name in ("map_or", "is_none_or") and "first(" in decision.describe_deep(f, fa.call.args[0], 3) and ".input" in decision.describe_deep(f, fa.call.args[0], 4):
+                            dflt = f.const_args(fa.call)[1] if fa.call.name == "map_or" and len(f.const_args(fa.call)) > 1 else {"v": "1"}
+                            clos = f.origin(fa.call.args[-1])
+                            cf = prog.fns.get(clos[-1][1][1].get("def")) if clos and clos[-1][0] == "agg" and clos[-1][1][1].get("k") == "closure" else None
+                            amp = cf is not None and re.search(r"const 38|'&'", decision.show(decision.bool_expr(cf))) is not None and re.match(r"(eq|Eq)\(", decision.show(decision.bool_expr(cf))) is not None
+                            if dflt is not None and str(dflt.get("v")) == "1" and amp:
                                 ok = True
         ck.ob(R, "reader:%s-empty" % nm, ok, f.loc(None) if f else "", "" if ok else "%s does not produce %s exactly for the empty section" % (nm, visit), how="%s => %s when the section is empty" % (nm, visit))
     # support matrix
